@@ -115,8 +115,9 @@ def run(rep):
     from .sem import nt as _nt
     for fn_, vt in ((vc, 'c'), (vo, 'o')):
         ss_ = _N(_S(fn_))
-        want = "_verify(iface, candidate, tentative, vtype='%s')" % vt
-        ok_ = bool(ss_) and all(_nt(ps.ret) == want for ps in ss_)
+        want = ("_verify(iface, candidate, tentative, vtype='%s')" % vt,
+                "_verify(iface, candidate, tentative, '%s')" % vt)
+        ok_ = bool(ss_) and all(_nt(ps.ret) in want for ps in ss_)
         rep.check('R17.3', 'verify.' + fn_.name, ok_,
                   "%s -> vtype '%s' (%s)" % (fn_.name, vt, sorted({_nt(ps.ret)[:60]
                                                                   for ps in ss_})),
